@@ -172,6 +172,26 @@ func CreatorRuntime() []byte {
 	return append(b, child...)
 }
 
+// PrefundCreatorRuntime: forwards the call value to the address given in calldata[0:32] (the harness passes the address
+// the next CREATE of this contract will produce), then creates a child (counter) there without value and stores its
+// address: the child must own what was sent to its address earlier in the same transaction.
+func PrefundCreatorRuntime() []byte {
+	child := Deployer(Asm(Programs["counter"], nil), 5)
+	body := func(off int) []byte {
+		return Asm(fmt.Sprintf("0 0 0 0 CALLVALUE 0 CALLDATALOAD GAS CALL POP %d 0x%04x 0 CODECOPY %d 0 0 CREATE DUP1 0 SSTORE BALANCE 1 SSTORE STOP", len(child), off, len(child)), nil)
+	}
+	b := body(0)
+	for i := 0; i < 3; i++ {
+		b2 := body(len(b))
+		if len(b2) == len(b) {
+			b = b2
+			break
+		}
+		b = b2
+	}
+	return append(b, child...)
+}
+
 func word(b []byte) []byte {
 	w := make([]byte, 32)
 	copy(w[32-len(b):], b)
